@@ -232,10 +232,14 @@ type sim struct {
 	gossiped map[msg]int32 // message -> index in gossip
 	decided  map[types.Height]uint64
 	decider  map[types.Height]int
+	decRound map[types.Height]types.Round
+	// byzantine proposers re-send their first proposal of a round instead of a new one
+	consistentProposer bool
 	seen     map[types.Height][]uint64 // value ids proposed at a height (adversary's alphabet)
 	hash     uint64
 	steps    int
 	violated bool
+	suppressed int
 	trace    [128]event
 	ntrace   int
 	st       stats
@@ -260,7 +264,7 @@ type stats struct {
 func newSim(r *lib.Run, idx int, c *config, rng *rand.Rand) *sim {
 	s := &sim{
 		r: r, idx: idx, c: c, rng: rng, nodes: make([]*node, c.n),
-		decided: map[types.Height]uint64{}, decider: map[types.Height]int{},
+		decided: map[types.Height]uint64{}, decider: map[types.Height]int{}, decRound: map[types.Height]types.Round{},
 		seen: map[types.Height][]uint64{}, gossiped: map[msg]int32{}, hash: 1469598103934665603,
 		byzProps: map[[2]int64]msg{},
 	}
